@@ -6,6 +6,7 @@ import (
 	"strings"
 	"time"
 
+	mcp "trpc.group/trpc-go/trpc-mcp-go"
 	"verif/sim"
 )
 
@@ -84,6 +85,16 @@ func runC01(c *Ctx) {
 	plan := map[string][][]c01Op{}
 	for ci := 0; ci < nClients; ci++ {
 		cl := w.newClient()
+		// request ids are a counter: start it where the statement's range ends or formats change
+		if t.Bool(35) {
+			start := []int64{999990, 999999, 1 << 31, 1<<53 - 40, 123456789012}[t.Draw(5)]
+			if cl.HTTP != nil {
+				mcp.VerifSetNextRequestID(cl.HTTP, start)
+			} else {
+				mcp.VerifSetNextRequestID(cl.Stdio, start)
+			}
+			c.SetPlan("first_id_of_"+cl.Name, start+1)
+		}
 		if cl.Link != nil && faulty {
 			cl.Link.FromSrv.ShortRead = 20
 			cl.Link.ToSrv.ShortRead = 20
